@@ -580,6 +580,11 @@ pub fn run(args: &Args) -> Value {
         ("C04", Some("odd-parity"), QmcSpec { nvars: 2, bonds: vec![BondSpec { kind: 0, mat: vec![2.0, 1.0, 1.0, 0.5], vars: vec![0] },
             BondSpec { kind: 0, mat: vec![2.0, 1.0, 1.0, 0.5], vars: vec![1] }, BondSpec { kind: 3, mat: vec![1.0, 0.0, 0.0, 1.0], vars: vec![0, 1] }],
             state: vec![true, false], loops: true, hb: false }),
+        // candidate finding reported by a round-6 seeding agent: an exchange bond next to constant single-site terms
+        // (loops and cluster updates both on) - the parity of the number of off-diagonal exchange operators would be conserved
+        ("C04", Some("exchange-plus-constant"), QmcSpec { nvars: 2, bonds: vec![exch(vec![0, 1], 1.0, 2.0, 1.0),
+            BondSpec { kind: 0, mat: vec![1.0; 4], vars: vec![0] }, BondSpec { kind: 0, mat: vec![1.0; 4], vars: vec![1] }],
+            state: vec![true, false], loops: true, hb: false }),
     ];
     let mut generic_jobs = vec![];
     for (prop, key, spec) in generic {
